@@ -18,8 +18,7 @@ def tbl (n : String) (a : Option String := none) : FromTable := .mk (.table none
 def run (q : Query) : Except Err (List (String × Int × List (Option String × String × Option String))) :=
   match selectLineage cat (fuelFor q) q {} with
   | .error e => .error e
-  | .ok (l, _) => .ok (l.allColumns.map fun (c, s) =>
-      ((c.map (·.name)).getD "?", (c.map (·.idx)).getD 0, (s.getD []).map fun x => (x.schema, x.table, x.col)))
+  | .ok (l, _) => .ok (l.allColumns.map fun (c, s) => (c.name, c.idx, s.map fun x => (x.schema, x.table, x.col)))
 
 def isErr (e : Err) : Except Err α → Bool
   | .error x => x == e
@@ -28,59 +27,66 @@ def isOk [BEq α] (v : α) : Except Err α → Bool
   | .ok x => x == v
   | .error _ => false
 
-/-- F-C16-1: `SELECT a FROM t` — the source carries schema `""`, not `None` -/
-theorem witness_1 : isOk [("a", 1, [(some "", "t", some "a")])] (run (.single (sel [(.column none "a", none)] [tbl "t"]))) = true := by
+/-! ### repaired defects: the model, synced with the repaired code, on the former witnesses -/
+
+/-- F-C16-1 (fixed by 8d14f08): `SELECT a FROM t` — the source of a table without schema carries no schema -/
+theorem fixed_1 : isOk [("a", 1, [(none, "t", some "a")])] (run (.single (sel [(.column none "a", none)] [tbl "t"]))) = true := by
   decide +kernel
-/-- F-C16-2: `WITH w AS (SELECT a FROM t) SELECT a FROM w` raises `TypeError` -/
-theorem witness_2 : isErr (.py .TypeError) (run (.single (.mk (some [.mk "w" (.single (sel [(.column none "a", none)] [tbl "t"]))]) false
+/-- F-C16-2 (fixed by b2a1289): `WITH w AS (SELECT a FROM t) SELECT a FROM w` -/
+theorem fixed_2 : isOk [("a", 1, [(none, "t", some "a")])] (run (.single (.mk (some [.mk "w" (.single (sel [(.column none "a", none)] [tbl "t"]))]) false
     [(.column none "a", none)] (some [tbl "w"]) [] [] none none none none none none none none))) = true := by
   decide +kernel
-/-- F-C16-3: `SELECT COUNT(1) AS n FROM t` raises `AttributeError` -/
-theorem witness_3 : isErr (.py .AttributeError) (run (.single (sel [(.agg "COUNT" [.literal "1"] false, some "n")] [tbl "t"]))) = true := by
+/-- F-C16-3 (fixed by 4d1b950): `SELECT COUNT(1) AS n FROM t` depends on the table `t` as a whole -/
+theorem fixed_3 : isOk [("n", 1, [(none, "t", none)])] (run (.single (sel [(.agg "COUNT" [.literal "1"] false, some "n")] [tbl "t"]))) = true := by
   decide +kernel
-/-- F-C16-4: `SELECT t.a, u.a FROM t, u` — both entries report position 2 and the sources of `u.a` -/
-theorem witness_4 : isOk [("a", 2, [(some "", "u", some "a")]), ("a", 2, [(some "", "u", some "a")])]
+/-- F-C16-4 (fixed by c4b6f51): `SELECT t.a, u.a FROM t, u` — each entry with its own position and sources -/
+theorem fixed_4 : isOk [("a", 1, [(none, "t", some "a")]), ("a", 2, [(none, "u", some "a")])]
     (run (.single (sel [(.column (some "t") "a", none), (.column (some "u") "a", none)] [tbl "t", tbl "u"]))) = true := by
   decide +kernel
+/-- F-C16-9 (fixed by 8a4415a): `SELECT t.zz FROM t` is an analysis error -/
+theorem fixed_9 : isErr .analyzer (run (.single (sel [(.column (some "t") "zz", none)] [tbl "t"]))) = true := by
+  decide +kernel
+/-- F-C16-10 (fixed by 6137bf1): `SELECT zz.a FROM t` is an analysis error -/
+theorem fixed_10 : isErr .analyzer (run (.single (sel [(.column (some "zz") "a", none)] [tbl "t"]))) = true := by
+  decide +kernel
+/-- F-C16-11 (fixed by 9d2d3e4): `SELECT CURRENT_DATE, a FROM t` — nothing flows into the variable -/
+theorem fixed_11 : isOk [("CURRENT_DATE", 1, []), ("a", 2, [(none, "t", some "a")])]
+    (run (.single (sel [(.column none "CURRENT_DATE", none), (.column none "a", none)] [tbl "t"]))) = true := by
+  decide +kernel
+/-- F-C16-13 (fixed by eca5612): `SELECT COUNT(*) AS n FROM t, u` reads every column of both tables -/
+theorem fixed_13 : isOk [("n", 1, [(none, "t", some "a"), (none, "t", some "b"), (none, "t", some "c"), (none, "u", some "a"), (none, "u", some "d")])]
+    (run (.single (sel [(.agg "COUNT" [.wildcard none] false, some "n")] [tbl "t", tbl "u"]))) = true := by
+  decide +kernel
+
+/-! ### open findings -/
+
 /-- F-C16-5: `SELECT (SELECT d FROM u) AS sq, a FROM t` — nothing flows into `sq` -/
-theorem witness_5 : isOk [("sq", 1, []), ("a", 2, [(some "", "t", some "a")])]
+theorem witness_5 : isOk [("sq", 1, []), ("a", 2, [(none, "t", some "a")])]
     (run (.single (sel [(.subQuery (.single (sel [(.column none "d", none)] [tbl "u"])), some "sq"), (.column none "a", none)] [tbl "t"]))) = true := by
   decide +kernel
-/-- F-C16-6: `SELECT x.* FROM t x` raises `KeyError` -/
-theorem witness_6 : isErr (.py .KeyError) (run (.single (sel [(.wildcard (some "x"), none)] [tbl "t" (some "x")]))) = true := by
+/-- F-C16-6: `SELECT x.* FROM t x` is refused: the expanded references carry the table's name, which is no alias of the level -/
+theorem witness_6 : isErr .analyzer (run (.single (sel [(.wildcard (some "x"), none)] [tbl "t" (some "x")]))) = true := by
   decide +kernel
 /-- F-C16-7: `SELECT b FROM t UNION SELECT a FROM u` is refused as ambiguous -/
 theorem witness_7 : isErr .analyzer (run (.union (some []) (sel [(.column none "b", none)] [tbl "t"])
     [("UNION", sel [(.column none "a", none)] [tbl "u"])])) = true := by
   decide +kernel
 /-- F-C16-8: `SELECT o.v1, u.d FROM (SELECT u.a AS v1 FROM (SELECT a FROM t) u) o, u` — the base table `u` is answered from the
-stale entry of the inner derived table `u` -/
-theorem witness_8 : isErr (.py .KeyError) (run (.single (sel [(.column (some "o") "v1", none), (.column (some "u") "d", none)]
+stale entry of the inner derived table `u`, which has no column `d` -/
+theorem witness_8 : isErr .analyzer (run (.single (sel [(.column (some "o") "v1", none), (.column (some "u") "d", none)]
     [.mk (.sub (.single (sel [(.column (some "u") "a", some "v1")] [.mk (.sub (.single (sel [(.column none "a", none)] [tbl "t"]))) (some "u")]))) (some "o"),
      tbl "u"]))) = true := by
-  decide +kernel
-/-- F-C16-9: `SELECT t.zz FROM t` raises `KeyError` -/
-theorem witness_9 : isErr (.py .KeyError) (run (.single (sel [(.column (some "t") "zz", none)] [tbl "t"]))) = true := by
-  decide +kernel
-/-- F-C16-10: `SELECT zz.a FROM t` raises `KeyError` -/
-theorem witness_10 : isErr (.py .KeyError) (run (.single (sel [(.column (some "zz") "a", none)] [tbl "t"]))) = true := by
-  decide +kernel
-/-- F-C16-11: `SELECT CURRENT_DATE, a FROM t` is refused -/
-theorem witness_11 : isErr .analyzer (run (.single (sel [(.column none "CURRENT_DATE", none), (.column none "a", none)] [tbl "t"]))) = true := by
   decide +kernel
 /-- F-C16-12: `SELECT 1 AS one FROM (SELECT a FROM t)` raises `AttributeError` -/
 theorem witness_12 : isErr (.py .AttributeError) (run (.single (sel [(.literal "1", some "one")]
     [.mk (.sub (.single (sel [(.column none "a", none)] [tbl "t"]))) none]))) = true := by
   decide +kernel
-/-- F-C16-13: `SELECT COUNT(*) AS n FROM t, u` is refused as ambiguous -/
-theorem witness_13 : isErr .analyzer (run (.single (sel [(.agg "COUNT" [.wildcard none] false, some "n")] [tbl "t", tbl "u"]))) = true := by
-  decide +kernel
 
 /-! non-vacuity: the model on queries that work — joins with qualified references, a derived table, `*` -/
-example : isOk [("a", 1, [(some "", "t", some "a")]), ("s", 2, [(some "", "t", some "b"), (some "", "u", some "d")])]
+example : isOk [("a", 1, [(none, "t", some "a")]), ("s", 2, [(none, "t", some "b"), (none, "u", some "d")])]
     (run (.single (sel [(.column (some "x") "a", none), (.compute (.column (some "x") "b") "PLUS" (.column (some "y") "d"), some "s")]
       [tbl "t" (some "x"), tbl "u" (some "y")]))) = true := by decide +kernel
-example : isOk [("k", 1, [(some "", "t", some "a"), (some "", "t", some "b")])]
+example : isOk [("k", 1, [(none, "t", some "a"), (none, "t", some "b")])]
     (run (.single (sel [(.column (some "q") "k", none)]
       [.mk (.sub (.single (sel [(.compute (.column none "a") "PLUS" (.column none "b"), some "k")] [tbl "t"]))) (some "q")]))) = true := by decide +kernel
 example : isOk [("x", 1, [(some "s", "v", some "x")]), ("y", 2, [(some "s", "v", some "y")])]
@@ -128,14 +134,14 @@ theorem mk_names : ∀ (data : List (SCol × List SrcCol)) (l : Lineage),
   | (c, s) :: r, l => by simp [mkLineage, mk_names r]
 
 theorem go_names (c : CreateTable) : ∀ (ds : List DefCol) (i : Nat),
-    (byCreateTable.go c (c.table.schema.getD "") ds i).map (fun p => (p.1.name, p.2)) =
-      ds.map (fun d => (d.name, [(⟨some (c.table.schema.getD ""), c.table.name, some d.name⟩ : SrcCol)]))
+    (byCreateTable.go c ds i).map (fun p => (p.1.name, p.2)) =
+      ds.map (fun d => (d.name, [(⟨c.table.schema, c.table.name, some d.name⟩ : SrcCol)]))
   | [], _ => rfl
   | d :: r, i => by simp [byCreateTable.go, go_names c r]
 
 /-- the sources a base-table lineage answers for a column name are those of the relation the table denotes -/
 theorem byCreate_srcOf (c : CreateTable) (n : String) :
-    dictGet? (byCreateTable c).srcOf n = dictGet? (baseRel implSchema c) n := by
+    dictGet? (byCreateTable c).srcOf n = dictGet? (baseRel c) n := by
   have key : ∀ (ps : List (SCol × List SrcCol)), ps.foldl (fun m p => dictSet m p.1.name p.2) ([] : List (String × List SrcCol))
       = (ps.map (fun p => (p.1.name, p.2))).foldl (fun m p => dictSet m p.1 p.2) [] := by
     intro ps; rw [List.foldl_map]
@@ -143,21 +149,32 @@ theorem byCreate_srcOf (c : CreateTable) (n : String) :
   rw [mk_srcOf]
   simp only [Lineage.empty]
   rw [key, go_names]
-  simp only [baseRel, implSchema]
-  let g : String → List SrcCol := fun k => [⟨some (c.table.schema.getD ""), c.table.name, some k⟩]
-  have e1 : (c.columns.map fun d => (d.name, [(⟨some (c.table.schema.getD ""), c.table.name, some d.name⟩ : SrcCol)]))
+  simp only [baseRel]
+  let g : String → List SrcCol := fun k => [⟨c.table.schema, c.table.name, some k⟩]
+  have e1 : (c.columns.map fun d => (d.name, [(⟨c.table.schema, c.table.name, some d.name⟩ : SrcCol)]))
       = (c.columns.map (·.name)).map fun k => (k, g k) := by simp [g]
   rw [e1, List.foldl_map]
   have := dictGet_foldl_const g (c.columns.map (·.name)) [] n
   simp only [dictGet_map_const g]
   simpa [dictGet?] using this
 
-/-- looking a base table up in the store: the sub-query store is empty, so the catalogue answers; the store stays empty -/
-theorem getTableLineage_base (cat : Cat) (t : StdTable) (c : CreateTable) (st : St) (hs : st.subq = [])
-    (hc : catLookup cat t = some c) : ∃ st', getTableLineage cat t st = .ok (byCreateTable c, st') ∧ st'.subq = [] := by
+/-- the column names of a base-table lineage -/
+theorem byCreate_names (c : CreateTable) : (byCreateTable c).names = c.columns.map (·.name) := by
+  unfold byCreateTable
+  rw [mk_names]
+  have := congrArg (List.map (·.1)) (go_names c c.columns 0)
+  simp only [List.map_map] at this
+  simpa [Lineage.empty, Function.comp_def] using this
+
+/-- the stores of WITH tables and derived tables are empty (the fragment has neither) -/
+def Inv (st : St) : Prop := st.subq = [] ∧ st.withT = []
+
+/-- looking a base table up in the store: both stores are empty, so the catalogue answers; the stores stay empty -/
+theorem getTableLineage_base (cat : Cat) (t : StdTable) (c : CreateTable) (st : St) (hs : Inv st)
+    (hc : catLookup cat t = some c) : ∃ st', getTableLineage cat t st = .ok (byCreateTable c, st') ∧ Inv st' := by
   unfold catLookup at hc
   unfold getTableLineage getStatement
-  simp only [hs, dictGet?, List.find?]
+  simp only [hs.1, hs.2, dictGet?, List.find?]
   cases hf : cat.find? (·.1 == PM.unifyName (StdTable.source t)) with
   | none => simp [hf] at hc
   | some p =>
@@ -165,12 +182,13 @@ theorem getTableLineage_base (cat : Cat) (t : StdTable) (c : CreateTable) (st : 
     simp [hf] at hc
     subst hc
     refine ⟨_, rfl, ?_⟩
-    split <;> simp [hs]
+    unfold Inv
+    split <;> simp [hs.1, hs.2]
 
 /-- one qualified reference: the model's lookup is the specification's -/
-theorem analyzeQuoteColumn_ok (cat : Cat) (tn : List (String × StdTable)) (t n : String) (hn : (n != "*") = true) (st : St) (hs : st.subq = [])
-    (src : List SrcCol) (h : flowRef (scopeRel implSchema cat tn) ⟨some t, some n, none⟩ = some src) :
-    ∃ st', analyzeQuoteColumn cat tn ⟨some t, some n, none⟩ st = .ok (src, st') ∧ st'.subq = [] := by
+theorem analyzeQuoteColumn_ok (cat : Cat) (tn : List (String × StdTable)) (t n : String) (hn : (n != "*") = true) (st : St) (hs : Inv st)
+    (src : List SrcCol) (h : flowRef (scopeRel cat tn) ⟨some t, some n, none⟩ = some src) :
+    ∃ st', analyzeQuoteColumn cat tn ⟨some t, some n, none⟩ st = .ok (src, st') ∧ Inv st' := by
   simp only [flowRef, scopeRel] at h
   cases htn : dictGet? tn t with
   | none => simp [htn] at h
@@ -182,23 +200,34 @@ theorem analyzeQuoteColumn_ok (cat : Cat) (tn : List (String × StdTable)) (t n 
       simp only [hc, Option.map_some, Option.bind_some] at h
       obtain ⟨st', h1, h2⟩ := getTableLineage_base cat std c st hs hc
       refine ⟨st', ?_, h2⟩
-      simp only [analyzeQuoteColumn, htn, h1, bind, Except.bind, Lineage.srcByName, hn, if_true, byCreate_srcOf, h, pure, Except.pure]
+      have hmem : n ∈ c.columns.map (·.name) := by
+        have e : baseRel c = (c.columns.map (·.name)).map fun k => (k, [(⟨c.table.schema, c.table.name, some k⟩ : SrcCol)]) := by
+          simp [baseRel]
+        rw [e, dictGet_map_const] at h
+        by_cases hne : n ∈ c.columns.map (·.name)
+        · exact hne
+        · simp [hne] at h
+      have hhas : (byCreateTable c).hasColumn n = true := by
+        simp only [Lineage.hasColumn, byCreate_names]
+        simp [List.contains_iff_mem, hmem]
+      simp only [analyzeQuoteColumn, htn, h1, bind, Except.bind, hhas, Bool.not_true, Bool.false_eq_true, if_false,
+        Lineage.srcByName, hn, if_true, byCreate_srcOf, h, pure, Except.pure]
 
 /-- the references of one output column -/
 theorem analyzeQuoteColumns_ok (cat : Cat) (tn : List (String × StdTable)) :
-    ∀ (qs : List QCol) (st : St), st.subq = [] →
+    ∀ (qs : List QCol) (st : St), Inv st →
       (∀ r ∈ qs, r.idx = none ∧ r.name ≠ some "*") →
-      ∀ src, flowRefs (scopeRel implSchema cat tn) qs = some src →
-      ∃ st', analyzeQuoteColumns cat tn qs st = .ok (src, st') ∧ st'.subq = []
+      ∀ src, flowRefs (scopeRel cat tn) qs = some src →
+      ∃ st', analyzeQuoteColumns cat tn qs st = .ok (src, st') ∧ Inv st'
   | [], st, hs, _, src, h => by
     simp [flowRefs] at h; subst h
     exact ⟨st, by simp [analyzeQuoteColumns], hs⟩
   | r :: rest, st, hs, hq, src, h => by
     simp only [flowRefs, bind, Option.bind] at h
-    cases h1 : flowRef (scopeRel implSchema cat tn) r with
+    cases h1 : flowRef (scopeRel cat tn) r with
     | none => simp [h1] at h
     | some a =>
-      cases h2 : flowRefs (scopeRel implSchema cat tn) rest with
+      cases h2 : flowRefs (scopeRel cat tn) rest with
       | none => simp [h1, h2] at h
       | some b =>
         simp [h1, h2] at h
@@ -237,19 +266,19 @@ def flowCur (scope : String → Option Rel) : List (SCol × List QCol) → Optio
     pure ((c, s) :: b)
 
 theorem sourcesLoop_ok (cat : Cat) (tn : List (String × StdTable)) :
-    ∀ (cur : List (SCol × List QCol)) (st : St), st.subq = [] →
+    ∀ (cur : List (SCol × List QCol)) (st : St), Inv st →
       (∀ p ∈ cur, ∀ r ∈ p.2, r.idx = none ∧ r.name ≠ some "*") →
-      ∀ data, flowCur (scopeRel implSchema cat tn) cur = some data →
-      ∃ st', sourcesLoop cat tn [] cur st = .ok (data, st') ∧ st'.subq = []
+      ∀ data, flowCur (scopeRel cat tn) cur = some data →
+      ∃ st', sourcesLoop cat tn [] cur st = .ok (data, st') ∧ Inv st' 
   | [], st, hs, _, data, h => by
     simp [flowCur] at h; subst h
     exact ⟨st, by simp [sourcesLoop], hs⟩
   | (c, qs) :: r, st, hs, hq, data, h => by
     simp only [flowCur, bind, Option.bind] at h
-    cases h1 : flowRefs (scopeRel implSchema cat tn) qs with
+    cases h1 : flowRefs (scopeRel cat tn) qs with
     | none => simp [h1] at h
     | some a =>
-      cases h2 : flowCur (scopeRel implSchema cat tn) r with
+      cases h2 : flowCur (scopeRel cat tn) r with
       | none => simp [h1, h2] at h
       | some b =>
         simp [h1, h2] at h
@@ -278,7 +307,7 @@ theorem currentLevelSingle_ok (cat : Cat) (tn : List (String × StdTable)) :
     simp [currentLevelSingle, curOf, C15.expr_ok e, itemName, ih, bind, Except.bind, pure, Except.pure]
   | (.column (some t) n, none) :: r, idx, st, h => by
     have ih := currentLevelSingle_ok cat tn r (idx + 1) st (fun it hit => h it (by simp [hit]))
-    simp [currentLevelSingle, curOf, itemName, ih, bind, Except.bind, pure, Except.pure, colsE, isGlobal]
+    simp [currentLevelSingle, curOf, itemName, ih, C15.expr_ok (.column (some t) n), bind, Except.bind, pure, Except.pure, colsE, isGlobal]
   | (.column none n, none) :: r, idx, st, h => absurd (h _ List.mem_cons_self) (by simp [FragItem])
   | (.literal _, none) :: r, idx, st, h => absurd (h _ List.mem_cons_self) (by simp [FragItem])
   | (.wildcard _, none) :: r, idx, st, h => absurd (h _ List.mem_cons_self) (by simp [FragItem])
@@ -356,7 +385,7 @@ theorem curOf_mem : ∀ (items : List (Expr × Option String)) (idx : Nat) (p : 
 tables, whose select items are aliased expressions or qualified columns, and whose references are all resolvable
 (`flowItems … = some out`: every reference `t.c` names a table in scope that the catalogue knows and a column of it):
 the lineage object the model builds is exactly the one built from the specified flow — output columns in order, numbered
-from 1, each with exactly the base columns reaching it — up to the spelling of an absent schema (`implSchema`, F-C16-1).
+from 1, each with exactly the base columns reaching it (an absent schema stays absent: F-C16-1 is fixed).
 Everything outside the hypotheses is covered by the correspondence and the oracle only. -/
 theorem lineage_eq_flow_partial (cat : Cat) (dist : Bool) (cols : List (Expr × Option String)) (fr : List FromTable) (js : List Join)
     (wh : Option Expr) (gb : Option GroupBy) (hv : Option Expr) (ob sb : Option (List OrderItem)) (db cb : Option (List Expr))
@@ -365,11 +394,11 @@ theorem lineage_eq_flow_partial (cat : Cat) (dist : Bool) (cols : List (Expr × 
     (tn : List (String × StdTable)) (htn : tableNames (fr ++ js.map (fun | .mk _ t _ => t)) [] = .ok tn)
     (hfrag : ∀ it ∈ cols, FragItem it)
     (hq : ∀ it ∈ cols, ∀ r ∈ colsE it.1, r.idx = none ∧ r.name ≠ some "*")
-    (out : List (String × List SrcCol)) (hflow : flowItems (scopeRel implSchema cat tn) cols = some out) :
+    (out : List (String × List SrcCol)) (hflow : flowItems (scopeRel cat tn) cols = some out) :
     ∃ st', selectLineage cat (f + 2) (.single (.mk (some []) dist cols (some fr) [] js wh gb hv ob sb db cb lm)) {}
       = .ok (mkLineage (number out 1) Lineage.empty, st') := by
-  have hcur := flowCur_of_items (scopeRel implSchema cat tn) cols 1 out hflow
-  obtain ⟨st', h1, _⟩ := sourcesLoop_ok cat tn (curOf cols 1) {} rfl
+  have hcur := flowCur_of_items (scopeRel cat tn) cols 1 out hflow
+  obtain ⟨st', h1, _⟩ := sourcesLoop_ok cat tn (curOf cols 1) {} ⟨rfl, rfl⟩
     (fun p hp r hr => by
       obtain ⟨it, hit, e⟩ := curOf_mem cols 1 p hp
       exact hq it hit r (e ▸ hr))
@@ -379,12 +408,9 @@ theorem lineage_eq_flow_partial (cat : Cat) (dist : Bool) (cols : List (Expr × 
       = fr ++ js.map (fun | .mk _ t _ => t) := by
     simp [levelFromTables, branches, fromTablesOfSelect]
     intro a _; cases a; rfl
-  simp only [selectLineage, Query.withs, analyzeWithClauses, hfts, subQueries_base _ [] hbase, subQueryLineages, htn,
+  simp only [selectLineage, Query.withs, withLineages, hfts, subQueries_base _ [] hbase, subQueryLineages, htn,
     lateralColumns, lateralSingle, Select.laterals, List.foldlM_nil, dictOfPairs, List.foldl_nil, currentLevel, Select.cols,
     currentLevelSingle_ok cat tn cols 1 _ hfrag, h1, bind, Except.bind, pure, Except.pure]
-
-/-- the specification's own spelling coincides with the implementation's on tables that have a schema -/
-theorem implSchema_some (s : String) : implSchema (some s) = some s := rfl
 
 theorem number_names : ∀ (out : List (String × List SrcCol)) (idx : Nat), (number out idx).map (·.1.name) = out.map (·.1)
   | [], _ => rfl
@@ -402,10 +428,7 @@ def exCols : List (Expr × Option String) :=
 example : tableNames ([tbl "t" (some "x")] ++ [Join.mk "JOIN" (tbl "u" (some "y")) none].map (fun | .mk _ t _ => t)) [] = .ok exTn := by
   simp [tableNames, tbl, dictSet, exTn]
 example : ∀ it ∈ exCols, FragItem it := by simp [exCols, FragItem]
-example : (flowItems (scopeRel implSchema cat exTn) exCols).map (fun l => l.map fun p => (p.1, p.2.map fun x => (x.schema, x.table, x.col)))
-    = some [("a", [(some "", "t", some "a")]), ("s", [(some "", "t", some "b"), (some "", "u", some "d")])] := by decide +kernel
-/-- with the specification's own spelling of an absent schema the same flow reads `none` -/
-example : (flowItems (scopeRel id cat exTn) exCols).map (fun l => l.map fun p => (p.1, p.2.map fun x => (x.schema, x.table, x.col)))
+example : (flowItems (scopeRel cat exTn) exCols).map (fun l => l.map fun p => (p.1, p.2.map fun x => (x.schema, x.table, x.col)))
     = some [("a", [(none, "t", some "a")]), ("s", [(none, "t", some "b"), (none, "u", some "d")])] := by decide +kernel
 
 end C16
